@@ -87,6 +87,10 @@ def cases(rng, tier):
         for h in hist:
             if rng.random() < 0.25 and h["nq"] >= 3:
                 h["instrs"].insert(0, {"name": "ccx", "qubits": [0, 1, 2]})
+        if rng.random() < 0.3:
+            hist.insert(rng.randint(0, len(hist)), {"special": "engine"})   # somebody tries another engine on a private settings object
+        if rng.random() < 0.3 and target["width"] >= 1:
+            target["reuse_constraints"] = rng.choice(["edit", "copy"])
         yield ("history", {"target": target, "history": hist, "scramble": [rng.randrange(1 << 30), rng.randrange(1 << 30), rng.randint(0, 50)],
                            "fresh": (i % (8 if tier == "quick" else 10) == 0)})
     for _ in range(N // 2):
@@ -157,6 +161,12 @@ def run_real(kind, payload):
         b = call_real(lambda p: cutfind.run_real(p), tgt, timeout=300)
         if _rng_states() != s0:
             notes.append("find_cuts consumed a global random generator")
+        if tgt.get("reuse_constraints"):
+            # the same request with a freshly constructed, equal constraints object
+            a2 = call_real(lambda p: cutfind.run_real(p), {k: v for k, v in tgt.items() if k != "reuse_constraints"}, timeout=300)
+            if a2 != a:
+                notes.append(f"an edited DeviceConstraints object equal to DeviceConstraints({tgt['width']}) gives {json.dumps(a)[:120]}, "
+                             f"a fresh one {json.dumps(a2)[:120]}")
         if a != b:
             notes.append(f"result changed after the history: {json.dumps(a)[:150]} -> {json.dumps(b)[:150]}")
         if payload.get("fresh"):
